@@ -36,6 +36,7 @@ type c17Case struct {
 	Cfg    rig.Config       `json:"config"`
 	Conns  [][]subSpec      `json:"connections"`
 	Jitter uint64           `json:"jitter_seed"`
+	Deep   bool             `json:"three_service_chain,omitempty"`
 }
 
 func (c17) ID() string            { return "C17" }
@@ -85,9 +86,63 @@ var markerArgRe = regexp.MustCompile(`marker:\s*("[^"]*"|\$\w+|null)\s*,?\s*`)
 
 // genSubOp generates a subscription operation whose root field carries marker.
 func genSubOp(r *rand.Rand, mono *ast.Schema, marker string) *gen.Op {
+	return genSubOpDepth(r, mono, marker, 3)
+}
+
+// serviceChain is the largest number of distinct services met along one path of the operation, counting the
+// owner of the subscription field first: 3 and more means a service that is reached only through another dependent one.
+func serviceChain(u *gen.Universe, mono *ast.Schema, q string) int {
+	doc, err := gqlparser.LoadQuery(mono, q)
+	if err != nil || len(doc.Operations) == 0 {
+		return 0
+	}
+	best := 0
+	var walk func(ss ast.SelectionSet, typ string, cur int, seen map[int]bool)
+	walk = func(ss ast.SelectionSet, typ string, cur int, seen map[int]bool) {
+		for _, sel := range ss {
+			f, ok := sel.(*ast.Field)
+			if !ok || strings.HasPrefix(f.Name, "__") || f.Definition == nil {
+				continue
+			}
+			owner := cur
+			if t := u.Type(typ); t != nil && t.Kind == gen.KEntity && f.Name != "id" {
+				for _, fd := range t.Fields {
+					if fd.Name == f.Name {
+						owner = fd.Owner
+					}
+				}
+			}
+			ns := seen
+			if !seen[owner] {
+				ns = map[int]bool{owner: true}
+				for k := range seen {
+					ns[k] = true
+				}
+			}
+			if len(ns) > best {
+				best = len(ns)
+			}
+			walk(f.SelectionSet, f.Definition.Type.Name(), owner, ns)
+		}
+	}
+	for _, sel := range doc.Operations[0].SelectionSet {
+		f, ok := sel.(*ast.Field)
+		if !ok || f.Definition == nil {
+			continue
+		}
+		for _, sf := range u.Subs {
+			if sf.Name == f.Name {
+				walk(f.SelectionSet, f.Definition.Type.Name(), sf.Owner, map[int]bool{sf.Owner: true})
+			}
+		}
+	}
+	return best
+}
+
+func genSubOpDepth(r *rand.Rand, mono *ast.Schema, marker string, depth int) *gen.Op {
 	for try := 0; try < 40; try++ {
 		prof := coreOpProfile()
-		prof.Kind, prof.Depth, prof.Width, prof.PMultiOp, prof.POpName, prof.PVar = ast.Subscription, 3, 3, 0, 0.3, 0.1
+		prof.Kind, prof.Depth, prof.Width, prof.PMultiOp, prof.POpName, prof.PVar = ast.Subscription, depth, 3, 0, 0.3, 0.1
 		op := genCoreOp(r, mono, prof)
 		if op == nil {
 			return nil
@@ -143,6 +198,17 @@ func (p c17) Gen(c *run.Ctx, idx int) (json.RawMessage, error) {
 			op := genSubOp(r, cu.mono, marker)
 			if op == nil {
 				continue
+			}
+			if idx%3 == 1 && ci == 0 && si == 0 && cu.u.K >= 3 {
+				// directed: a selection that walks through three services, the third met below a dependent step
+				r2 := rng(c.Seed, "c17/deep", idx)
+				for try := 0; try < 40; try++ {
+					if cand := genSubOpDepth(r2, cu.mono, marker, 4); cand != nil && serviceChain(cu.u, cu.mono, cand.Query) >= 3 {
+						op = cand
+						cs.Deep = true
+						break
+					}
+				}
 			}
 			var script []fake.SubEvent
 			n := 1 + r.Intn(12)
@@ -475,6 +541,9 @@ func (p c17) Exec(c *run.Ctx, idx int, raw json.RawMessage) []run.Result {
 	res.NonTrivial = crossService || nsubs >= 2
 	res.Key = hashStr(specHashOf(sp.U), jsonStr(sp.Conns), sp.Cfg.String())
 	res.Tags = cfgTags(sp.Cfg)
+	if sp.Deep {
+		res.Tags = append(res.Tags, "three-service-chain")
+	}
 	if inconclusive && len(viol) == 0 {
 		res.Verdict, res.Symptom = run.Inconclusive, "quiescence-watchdog"
 	}
